@@ -2077,7 +2077,7 @@ class Interp:
                             new.add(lid2)
                 return new
             changed |= note_changed(back1)
-            if self.exact_second and not self.in_probe and self.loop_cuts_literals(n):
+            if self.exact_second and not self.in_probe and (self.loop_cuts_literals(n) or self.mark_locals(n)):
                 # exact second iteration: paths that leave the loop right after one full iteration keep all the
                 # facts of that iteration (its back-edges are covered by the widened generic iteration below)
                 for s in back1:
